@@ -608,6 +608,17 @@ void WriteFloatToTextStream(Float n, Stream *stream,
   // TODO(bolms): Support digit grouping.
 }
 
+// Converts an integer read from text to an enum value; returns false if the
+// number is not representable in the enum's underlying type, so that
+// out-of-range numbers are rejected instead of silently wrapped.
+template <class Enum, class IntT>
+bool EnumFromTextInteger(IntT value, Enum *result) {
+  using Underlying = typename ::std::underlying_type<Enum>::type;
+  *result = static_cast<Enum>(value);
+  return (static_cast<Underlying>(*result) < 0) == (value < 0) &&
+         static_cast<IntT>(static_cast<Underlying>(*result)) == value;
+}
+
 template <class Stream, class View>
 bool ReadEnumViewFromTextStream(View *view, Stream *stream) {
   ::std::string token;
@@ -616,14 +627,15 @@ bool ReadEnumViewFromTextStream(View *view, Stream *stream) {
   if (::std::isdigit(token[0])) {
     ::std::uint64_t value;
     if (!DecodeInteger(token, &value)) return false;
-    // TODO(bolms): Fix the static_cast<ValueType> for signed ValueType.
-    // TODO(bolms): Should values between 2**63 and 2**64-1 actually be
-    // allowed in the text format when ValueType is signed?
-    return view->TryToWrite(static_cast<typename View::ValueType>(value));
+    typename View::ValueType enum_value;
+    if (!EnumFromTextInteger(value, &enum_value)) return false;
+    return view->TryToWrite(enum_value);
   } else if (token[0] == '-') {
     ::std::int64_t value;
     if (!DecodeInteger(token, &value)) return false;
-    return view->TryToWrite(static_cast<typename View::ValueType>(value));
+    typename View::ValueType enum_value;
+    if (!EnumFromTextInteger(value, &enum_value)) return false;
+    return view->TryToWrite(enum_value);
   } else {
     typename View::ValueType value;
     if (!TryToGetEnumFromName(token.c_str(), &value)) return false;
